@@ -280,6 +280,11 @@ def check_frame(it, c, key, old, selfobj):
             continue
         if isinstance(a, VObj) and isinstance(b, VObj) and a.oid == b.oid:
             continue
+        if isinstance(a, VOpt) and isinstance(b, VOpt) and isinstance(a.inner, VObj) and isinstance(b.inner, VObj) \
+                and a.inner.oid == b.inner.oid:
+            # Optional[collaborator]: same object, so only None-ness can have changed
+            it.ctx.prove(a.isnone == b.isnone, f"{key}.frame.{f}", {"kind": "frame", "src": f"self.{f} unchanged"})
+            continue
         e = it.eq(a, b)
         it.ctx.prove(e, f"{key}.frame.{f}", {"kind": "frame", "src": f"self.{f} unchanged"})
 
